@@ -29,6 +29,30 @@ def nested_product(case, fail):
     return any(c["children"] for c in _cfg(case).get("comps", []))
 
 
+def nested_product_as_specified(case, fail):
+    """D17/D18: the model has a component with children AND the specification's own run on that
+    model falsifies the same clause.  PdesyStep.tla models the defective placement of nested
+    products literally (MoveComp drags all descendants, RemovePlaced crashes on a child that was
+    placed on its own); harness/check.py runs it on the model of the failing run (Gen_SpecRun,
+    validated by TracePdesy like a recorded run) and stores the clauses it falsifies in
+    fail["spec_clauses"].  A clause the specified defective behaviour does not falsify on this
+    model is something else than the recorded finding and is reported as a violation."""
+    return nested_product(case, fail) and fail["clause"] in fail.get("spec_clauses", ())
+
+
+def nested_crash_site(case, fail):
+    """D17 / D17b: the model has a component with children and the failing run died with the
+    ValueError that list.remove() raises inside BaseWorkplace.remove_placed_component (the
+    driver records the innermost frame of an escaping exception as run["exc_site"])."""
+    if not nested_product(case, fail):
+        return False
+    runs = case.get("runs", [])
+    i = fail.get("run", 1)
+    run = runs[i - 1] if 0 < i <= len(runs) else (runs[0] if runs else {})
+    return (run.get("ret") == "exc:ValueError"
+            and run.get("exc_site") == "base_workplace.py:remove_placed_component")
+
+
 def multi_task_component(case, fail):
     cfg = _cfg(case)
     n = {}
@@ -84,6 +108,8 @@ def multi_task_component_moved(case, fail):
 DISCRIMINATORS = {
     "multi_task_component_moved": multi_task_component_moved,
     "nested_product": nested_product,
+    "nested_crash_site": nested_crash_site,
+    "nested_product_as_specified": nested_product_as_specified,
     "multi_task_component": multi_task_component,
     "multi_task_or_nested": multi_task_or_nested,
 }
